@@ -317,6 +317,11 @@ Definition run_matching (core invert : bool) (G H : hostg) (strat : sarg) (chk_r
 Definition run_object_S (core invert : bool) (G H : hostg)
     (raw : list C03_Model.mapping) (tbl : list (option bytes * option bytes)) (script : list attr) : tok :=
   run_object (RO invert false false (SMember 0%N) None false) None (substrate invert G H) (template core false G H) raw tbl script.
+(** the caller hands over a SynRule OBJECT built from the own template in the hydrogen mode of the reaction (SynRule(tpl, implicit_h = mode E));
+    the reactor uses it as it is forwards and inverts its prepared rc backwards (C03_Model.wrap_template_rule) *)
+Definition run_object_R (core invert : bool) (G H : hostg)
+    (raw : list C03_Model.mapping) (tbl : list (option bytes * option bytes)) (script : list attr) : tok :=
+  run_object (own_opts invert (mode_E G H) (SMember 0%N) None false) (Some (mode_E G H)) (substrate invert G H) (template core false G H) raw tbl script.
 Definition run_c04m (core invert guard : bool) (G H : hostg) (remaps : option (list N * list C03_Model.mapping))
     (kept : list C03_Model.mapping) (strat : sarg) (chk_raw : bool) (raw_impl : option (list C03_Model.mapping)) : tok :=
   L [run_c04k core invert guard G H remaps kept; run_matching core invert G H strat chk_raw raw_impl].
